@@ -26,6 +26,7 @@ EXPLANATION = (
     "fragments and may only travel on a context with exactly the file's transfer syntax "
     "(allow_conversion=False). Not decided: equality of decoded data sets for all VRs and values."
     " Fourth session: (bytes-complete) borrowed from C03's recv-exact; (mode-decided-once) the receive-mode flag is read only where the data set is received; C15's file-offset."
+    ' Fifth round: the codec pair is evaluated over the whole flag space with a marker payload (codec-evaluated); the receive-mode flag may also be read by the DIMSE message modules that take the decision.'
 )
 
 
